@@ -43,6 +43,7 @@ const (
 	EAttempt   = 20 // slot rid pod nc pin erdma accepted reason c4 c6
 	EDispose   = 21 // slot n ret whole n4 m4.. n6 m6..
 	ERelease   = 22 // slot pod eni a4 a6 handled
+	ERestart   = 50 // the daemon crashed and started again; the preload records (12 slot 0 ..) of the new pool follow
 	EMark      = 99
 )
 
@@ -157,6 +158,9 @@ type World struct {
 	bg       sync.WaitGroup
 	stopping bool
 	lastMs   int
+	extra    func() []int
+	// FailRelease: pods whose Release fails at the interface (fault injection for the GC's independence clause)
+	FailRelease map[int]bool
 }
 
 // push appends a record (caller holds w.mu); the virtual time that passed since the previous
@@ -482,6 +486,12 @@ func (n *slotNI) Allocate(ctx context.Context, cni *daemon.CNI, request eni.Reso
 }
 
 func (n *slotNI) Release(ctx context.Context, cni *daemon.CNI, request eni.NetworkResource) (bool, error) {
+	n.w.mu.Lock()
+	fail := n.w.FailRelease[PodNum(cni.PodID)]
+	n.w.mu.Unlock()
+	if fail {
+		return false, fmt.Errorf("injected: release failed")
+	}
 	res, is := request.(*eni.LocalIPResource)
 	var rec []int
 	if is {
@@ -557,7 +567,7 @@ var typeNames = []string{"secondary", "trunk", "erdma"}
 func NewWorld(cfg Config) *World {
 	eni.VerifSetRateLimit(rate.Inf)
 	w := &World{cfg: cfg, t0: time.Now(), cloud: map[int]*cloudENI{}, rids: map[*eni.LocalIPRequest]int{}, nextRid: 1000,
-		cancels: map[int]context.CancelFunc{}, held: map[int][3]int{}, inflight: map[int]int{}}
+		cancels: map[int]context.CancelFunc{}, held: map[int][3]int{}, inflight: map[int]int{}, FailRelease: map[int]bool{}}
 	w.ctx, w.cancel = context.WithCancel(context.Background())
 	pc := &daemon.PoolConfig{BatchSize: cfg.Batch, MaxIPPerENI: cfg.Cap, EnableIPv4: cfg.On4, EnableIPv6: cfg.On6}
 	var nis []eni.NetworkInterface
@@ -678,6 +688,15 @@ func (w *World) snapshot() []int {
 	return out
 }
 
+func (w *World) slotOfENI(e int) int {
+	for i, l := range w.locals {
+		if s := l.VerifSnapshot(); s.ENI != nil && eniNum(s.ENI.ID) == e {
+			return i + 1
+		}
+	}
+	return 0
+}
+
 // owned returns the addresses a pod owns on any interface.
 func (w *World) owned(pod int) (e, a4, a6 int) {
 	for _, l := range w.locals {
@@ -733,12 +752,20 @@ func (w *World) mark() {
 				} else {
 					r[9], r[10] = rp[6], rp[7]
 				}
+			} else if r[3] != 0 {
+				// no reply record (the request was made by the daemon's handler): what the pod owns on this interface now
+				if e, o4, o6 := w.owned(r[3]); e != 0 && w.slotOfENI(e) == r[1] {
+					r[9], r[10] = o4, o6
+				}
 			}
 		}
 		w.In = append(w.In, r)
 	}
 	w.In = append(w.In, []int{EMark})
 	w.Out = append(w.Out, w.snapshot()...)
+	if w.extra != nil {
+		w.Out = append(w.Out, w.extra()...)
+	}
 }
 
 var dbgHook func(w *World, what string)
@@ -901,3 +928,117 @@ func (w *World) MetaSync(slot int) {
 	}
 	w.quiesce()
 }
+
+// ---- hooks for the service-level harness (harness/svc) ----------------------------------------
+
+func (w *World) Ev(rec ...int) { w.ev(rec...) }
+func (w *World) Quiesce()      { w.quiesce() }
+func (w *World) Ctx() context.Context { return w.ctx }
+func (w *World) BG() *sync.WaitGroup  { return &w.bg }
+
+// Extra is appended to every quiescent-point snapshot (the service harness adds the store's contents).
+var _ = 0
+
+func (w *World) SetExtra(f func() []int) { w.extra = f }
+
+// AttachedENIs lists what the cloud has attached, as the daemon sees it at start-up.
+func (w *World) AttachedENIs() map[string]*daemon.ENI {
+	w.mu.Lock()
+	defer w.mu.Unlock()
+	m := map[string]*daemon.ENI{}
+	for _, e := range w.cloud {
+		m[eniName(e.id)] = w.daemonENI(e)
+	}
+	return m
+}
+
+// Restart models a daemon crash and start: every goroutine of the old pool is stopped (blocked cloud
+// calls return without effect), and a new pool is built around what the cloud has attached and loaded
+// with the stored allocations, as daemon/builder.go does.
+func (w *World) Restart(afterCancel func(), podResources func() []daemon.PodResources) error {
+	// stop the old pool
+	w.mu.Lock()
+	w.stopping = true
+	var all []*pending
+	for i := range w.pend {
+		all = append(all, w.pend[i]...)
+		w.pend[i] = nil
+	}
+	w.mu.Unlock()
+	for _, c := range w.cancels {
+		c()
+	}
+	w.cancel()
+	for _, p := range all {
+		p.done <- outcome{OErrBefore}
+	}
+	if afterCancel != nil {
+		afterCancel()
+	}
+	w.wg.Wait()
+	w.bg.Wait()
+	synctest.Wait()
+	// the records of the dying goroutines are not part of the history after the crash
+	w.mu.Lock()
+	w.block = nil
+	w.stopping = false
+	w.cancels = map[int]context.CancelFunc{}
+	w.inflight = map[int]int{}
+	w.rids = map[*eni.LocalIPRequest]int{}
+	w.ctx, w.cancel = context.WithCancel(context.Background())
+	w.wg = sync.WaitGroup{}
+	w.bg = sync.WaitGroup{}
+	ids := []int{}
+	for id := range w.cloud {
+		ids = append(ids, id)
+	}
+	sort.Ints(ids)
+	pc := &daemon.PoolConfig{BatchSize: w.cfg.Batch, MaxIPPerENI: w.cfg.Cap, EnableIPv4: w.cfg.On4, EnableIPv6: w.cfg.On6}
+	w.locals, w.nis = nil, nil
+	var nis []eni.NetworkInterface
+	w.block = append(w.block, []int{ERestart})
+	for i := range w.cfg.Types {
+		f := &slotFactory{w: w, slot: i + 1}
+		var de *daemon.ENI
+		ty := 0
+		if i < len(ids) {
+			e := w.cloud[ids[i]]
+			de = w.daemonENI(e)
+			if e.trunk {
+				ty = 1
+			}
+			rec := []int{ECallEnd, i + 1, 0, 1, 1, 0, e.id, b2i(e.trunk), e.prim}
+			rec = append(rec, lst(sortedKeys(e.v4))...)
+			rec = append(rec, lst(sortedKeys(e.v6))...)
+			w.block = append(w.block, rec)
+		}
+		l := eni.NewLocal(de, typeNames[ty], f, pc)
+		w.locals = append(w.locals, l)
+		ni := &slotNI{w: w, slot: i + 1, l: l}
+		w.nis = append(w.nis, ni)
+		nis = append(nis, ni)
+	}
+	w.pend = make([][]*pending, len(w.cfg.Types)+1)
+	w.mu.Unlock()
+	policy := daemon.EniSelectionPolicyMostIPs
+	if w.cfg.Policy == 1 {
+		policy = daemon.EniSelectionPolicyLeastIPs
+	}
+	w.Mgr = eni.NewManager(w.cfg.MinIdle, w.cfg.MaxIdle, w.cfg.Tot, 0, nis, policy, nil)
+	return w.Start(podResources())
+}
+
+// AnnotateRestart appends to the latest restart record the pods whose stored allocation took effect
+// (they own the stored addresses in the rebuilt pool); two records can claim one address when a DEL
+// released it and stalled before deleting its record.
+func (w *World) AnnotateRestart(winners []int) {
+	for i := len(w.In) - 1; i >= 0; i-- {
+		if len(w.In[i]) > 0 && w.In[i][0] == ERestart {
+			w.In[i] = append(append([]int{ERestart, len(winners)}, winners...))
+			return
+		}
+	}
+}
+
+// Owned reports what a pod owns in the pool now.
+func (w *World) Owned(pod int) (e, a4, a6 int) { return w.owned(pod) }
